@@ -1040,6 +1040,20 @@ def rule_index_le_len(ctx, o):
     return ctx.prove_ge0(o.bb, lp - p)
 
 
+def rule_str_split_at(ctx, o):
+    """str::split_at(mid): mid <= len and mid on a char boundary"""
+    ok, how = rule_index_le_len(ctx, o)
+    if not ok:
+        return ok, how
+    t = o.call
+    base = ctx.an.terms.operand(t["args"][0])
+    p = ctx.sy.poly(ctx.an.terms.operand(t["args"][1]))
+    okc, hc = char_boundaries(ctx, o.bb, base, [p])
+    if not okc:
+        return False, hc
+    return True, "%s; %s" % (how, hc)
+
+
 def rule_radix(ctx, o):
     t = o.call
     p = ctx.sy.poly(ctx.an.terms.operand(t["args"][1]))
@@ -1115,7 +1129,8 @@ CALL_RULES.update({
     "<impl [T]>::chunks_exact": rule_nonzero_arg1, "<impl [T]>::chunks": rule_nonzero_arg1, "<impl [T]>::windows": rule_nonzero_arg1,
     "Iterator::step_by": rule_nonzero_arg1,
     "Vec::<T, A>::swap_remove": rule_index_lt_len, "Vec::<T, A>::remove": rule_index_lt_len,
-    "Vec::<T, A>::split_off": rule_index_le_len, "<impl [T]>::split_at": rule_index_le_len, "<impl str>::split_at": rule_index_le_len,
+    "Vec::<T, A>::split_off": rule_index_le_len, "<impl [T]>::split_at": rule_index_le_len, "<impl str>::split_at": rule_str_split_at,
+    "String::truncate": rule_str_split_at, "String::split_off": rule_str_split_at,
     "Iterator::sum": rule_sum, "Vec::<T>::with_capacity": rule_capacity,
     "<impl u8>::from_str_radix": rule_radix, "<impl u16>::from_str_radix": rule_radix, "<impl u32>::from_str_radix": rule_radix,
 })
